@@ -124,8 +124,8 @@ PROPS["C15"] = dict(
     assumptions=BIN_ASSUME + ["argument expressions do not mention an enclosing variable named err (known finding F9, excluded by construction)"],
 )
 PROPS["C18"] = dict(
-    stages=[ebin(2, 40)],
-    rule="instrumented flows/parallels: any subset of tasks with cff.Instrument, InstrumentFlow/Parallel on/off, 1..3 recording emitters incl. nested EmitterStack; all outcome/predicate/fallback combinations (no cancellation); oracle = emitter protocol model per emitter (exactly one Success|Error carrying the returned error, one Done after it; per invoked instrumented task one matching outcome event with the very error/panic value and one TaskDone after it; TaskSkipped exactly once for non-invoked tasks in nil-returning runs; all emitters of a stack record identical multisets); non-trivial = >=2 instrumented tasks or a nested stack; distinct = hash(spec)",
+    stages=[ebin(2, 40), dict(name="emstack", module="gen", go=GO, test="TestEmStack", shards=4, checks={"quick": 20000, "thorough": 1000000})],
+    rule="instrumented flows/parallels: any subset of tasks with cff.Instrument, InstrumentFlow/Parallel on/off, 1..3 recording emitters incl. nested EmitterStack; all outcome/predicate/fallback combinations (no cancellation); oracle = emitter protocol model per emitter (exactly one Success|Error carrying the returned error, one Done after it; per invoked instrumented task one matching outcome event with the very error/panic value and one TaskDone after it; TaskSkipped exactly once for non-invoked tasks in nil-returning runs; all emitters of a stack record identical multisets); non-trivial = >=2 instrumented tasks or a nested stack; distinct = hash(spec); emstack stage (runtime library, no generator): rapid-drawn construction histories of cff.EmitterStack (literal arguments, slices spread with ... that share a backing array with spare capacity, stacks of stacks, duplicated leaves, the no-op emitter, writes to the source slices after a stack was built) followed by Init calls and events with identifiable arguments (context, error, panic value, duration, info pointers, scheduler state) sent to any built emitter; oracle = each leaf records exactly (multiplicity times, same arguments, script order) the events sent to the emitters it was combined into, and nothing else; non-trivial there = an event was delivered through a stack of >=2 distinct leaves",
     assumptions=BIN_ASSUME,
 )
 
